@@ -365,6 +365,19 @@ func (w *world) attempts(sp spelling, depth int) []attempt {
 	add("delete-objects-key", "DeleteObjects", del("<Object><Key>"+s3c.XMLEsc(fileT)+"</Key></Object>"), named, "", false)
 	add("delete-objects-key", "DeleteObjects-dir", del("<Object><Key>"+s3c.XMLEsc(dirT+"/inner.txt")+"</Key></Object>"), named, "", false)
 	add("delete-objects-versionId", "DeleteObjects", del("<Object><Key>seed/versioned</Key><VersionId>"+s3c.XMLEsc(fileT)+"</VersionId></Object>"), named, "seed/versioned", false)
+	// one batch naming a key several times: every ENTRY has to be checked, not every distinct key
+	ent := func(k, v string) string {
+		if v == "" {
+			return "<Object><Key>" + s3c.XMLEsc(k) + "</Key></Object>"
+		}
+		return "<Object><Key>" + s3c.XMLEsc(k) + "</Key><VersionId>" + s3c.XMLEsc(v) + "</VersionId></Object>"
+	}
+	deepVT := strings.Repeat(sp.text, depth+4)
+	for _, hostile := range []string{fileT, deepVT + canaryFile, deepVT + victim + "/" + canaryFile} {
+		add("delete-objects-versionId", "DeleteObjects-key-repeated", del(ent("seed/versioned", w.vid)+ent("seed/versioned", hostile)), named, "seed/versioned", false)
+		add("delete-objects-versionId", "DeleteObjects-key-repeated-plain-first", del(ent("seed/a.txt", "")+ent("seed/a.txt", hostile)), named, "seed/a.txt", false)
+	}
+	add("delete-objects-key", "DeleteObjects-key-repeated", del(ent("seed/b.txt", "")+ent(fileT, "")+ent("seed/b.txt", "")), named, "seed/b.txt", false)
 	return out
 }
 
